@@ -123,6 +123,12 @@ def run(prop, tier):
             req = {"ovni": listed["ovni"]["version"], model: d["version"]}
             system = emusrv.System(SPEC, require=req, extra_meta=MARKS)
             td = system.write(scratch.sub("t-" + model))
+            if model != "ovni":
+                # only the first thread requires the model: it is enabled for the whole trace all the same
+                pth = os.path.join(td, "loom.A/proc.100/thread.102", "stream.json")
+                m2 = json.load(open(pth))
+                del m2["ovni"]["require"][model]
+                json.dump(m2, open(pth, "w"))
             pool = ServerPool(exe, td, ["-l"])
             pool.meta = system.meta if "system" in dir() else None
             try:
@@ -153,7 +159,10 @@ def run(prop, tier):
                 accepted_unlisted = set()
                 for (hres, pres) in pool.expand_many(tasks):
                     if not hres.get("ok"):
-                        raise InfraError("prefix refused for model %s: %r" % (model, hres))
+                        # the prefix is a legal history (execute, type and task creation): refusing it is the emulator's doing
+                        ctx.violation("model %s: the emulator refuses the legal prefix %s: %s" % (model, [e.short() for e in prefix], hres.get("msg")),
+                                      {"engine": "E3", "model": model, "prefix": [e.line() for e in prefix], "flags": pool.flags}, {"kind": "prefix-refused", "model": model})
+                        raise StopIteration
                     for r in pres:
                         mcv = meta[k]
                         k += 1
@@ -217,7 +226,10 @@ def run(prop, tier):
                         for h, (hres, pres) in zip(frontier, res):
                             if not hres.get("ok"):
                                 if not h:
-                                    raise InfraError("context prefix %s refused for model %s: %r" % (cname, model, hres))
+                                    ctx.violation("model %s: the emulator refuses the legal prefix %s: %s" % (model, [e.short() for e in prefix + cpre], hres.get("msg")),
+                                                  {"engine": "E3", "model": model, "prefix": [e.line() for e in prefix + cpre], "flags": pool.flags},
+                                                  {"kind": "prefix-refused", "model": model})
+                                    raise StopIteration
                                 continue
                             for (m_, ev), r in zip(cand, pres):
                                 nctx += 1
@@ -273,6 +285,8 @@ def run(prop, tier):
                                           {"kind": "listed-wears-off", "mcv": m_})
                     ctx.part("repeat-" + model, events=len(meta2), repetitions=reps)
                 ctx.part("model-" + model, listed=len(by_mcv), unlisted_codes_probed=k, context_probes=nctx, legacy=sorted(legacy & set(ch + c + v for c in PRINTABLE for v in PRINTABLE)))
+            except StopIteration:
+                pass
             finally:
                 pool.close()
         # ---- (C) ovnidump decodes every listed event into its description with the values substituted
